@@ -91,7 +91,13 @@ def _one(R, rng, i):
     if layout != "rgb" and rng.random() < 0.3:
         slope, inter = rng.choice([(2.0, 0.0), (0.5, 1.0), (-1.0, 10.0), (1.0, -3.0)])
     nii = os.path.join(d, "vol.nii" + rng.choice(["", ".gz"]))
-    pipeline.write_nifti(nii, data, slope=slope, inter=inter)
+    storage = rng.choice(["deep-gz", "flat-gz", "deep", "flat", "sharded", "sharded-gz"])
+    # anisotropic voxel sizes give anisotropic chunk sizes (sharded storage needs cubic chunks)
+    vox = (1.0, 1.0, 1.0)
+    if not storage.startswith("sharded") and rng.random() < 0.5:
+        vox = rng.choice([(1.0, 1.0, 4.0), (0.5, 2.0, 1.0), (3.0, 1.0, 1.0), (1.0, 2.0, 2.0), (1.0, 8.0, 1.0),
+                          (2.0, 1.0, 0.25)])
+    pipeline.write_nifti(nii, data, affine=np.diag(list(vox) + [1.0]), slope=slope, inter=inter)
 
     ignore = slope is not None and rng.random() < 0.4
     mmap = rng.random() < 0.35
@@ -103,7 +109,6 @@ def _one(R, rng, i):
         target = "uint32"      # float -> uint64 at the top of the range is the C11 finding, kept out of C01
     if in_minmax and target is None and disk in ("uint64", "int64"):
         target = "uint16"
-    storage = rng.choice(["deep-gz", "flat-gz", "deep", "flat", "sharded", "sharded-gz"])
     tcs = rng.choice([1, 2, 4, 8])
     out = os.path.join(d, "out")
 
@@ -124,7 +129,7 @@ def _one(R, rng, i):
     rc, so, se = pipeline.run_script("volume_to_precomputed", gen_args + [nii, out], inprocess=True)
     case = {"layout": layout, "shape": shape, "channels": nch, "disk_dtype": disk, "slope_inter": [slope, inter],
             "ignore_scaling": ignore, "mmap": mmap, "input_min_max": in_minmax, "target": target,
-            "storage": storage, "target_chunk_size": tcs}
+            "storage": storage, "target_chunk_size": tcs, "voxel_size": list(vox)}
     if rc not in (0, 4):
         R.case(case)
         R.violation("--generate-info failed", case, {"rc": rc, "stderr": se[-400:]})
@@ -143,8 +148,10 @@ def _one(R, rng, i):
         gs_args += ["--encoding", enc]
     rc, so, se = pipeline.run_script("generate_scales_info", gs_args, inprocess=True)
     if rc != 0:
+        # scale generation is C08's subject (its internal assertion for strong anisotropy with a tiny
+        # target chunk size is a C08 finding); without an info there is nothing to convert
         R.case(case)
-        R.violation("generate-scales-info failed", case, {"rc": rc, "stderr": se[-400:]})
+        R.count("generate-scales-info:failed(C08)")
         return
     info = json.load(open(os.path.join(out, "info")))
     case["encoding"] = enc
@@ -233,6 +240,11 @@ def _one(R, rng, i):
     R.case(case, nontrivial=nontriv)
     R.count(f"{layout}:{storage}:{enc}")
     R.count(f"dtype:{disk}->{info['data_type']}")
+    R.count("chunks:" + ("cubic" if len(set(cs)) == 1 else "anisotropic"))
+    if slope is not None and in_minmax and not ignore:
+        R.count("header-scaling+input-min/max")
+    if src.dtype.kind == "i" and (src < 0).any() and out_dt.kind == "u":
+        R.count("negative->unsigned")
     if got.shape != expected.shape:
         R.violation("read-back volume has another shape", case, {"got": list(got.shape), "want": list(expected.shape)})
         return
